@@ -3,6 +3,7 @@ package engine
 import (
 	"context"
 	"sync"
+	"time"
 
 	"github.com/yandex/pandora/core"
 	"github.com/yandex/pandora/core/schedule"
@@ -126,5 +127,42 @@ func HarnessC04RunHistory() {
 	if !discard {
 		vCheck("W3.every.token.fired", shots == nTok)
 	}
+	vReach("end")
+}
+
+// Pool level: ammo is the binding bound while instance start is still ramping up and another
+// instance already holds an item and waits for its (timed) token.
+func HarnessC03PoolRampOutOfAmmo() {
+	// interleavings are the subject here, not durations: concrete pauses, frozen clock
+	d1, d2 := time.Second, time.Second
+	vFreezeClock()
+	items := 1
+	if vThorough() {
+		items = int(vConcretize(vNondetInt("items", 1, 2)))
+	}
+	prov := &hProvider{q: make(chan core.Ammo, 1), items: items, failAt: -1}
+	metrics := hMetrics()
+	aggr := &hAggregator{metrics: &metrics}
+	var gmu sync.Mutex
+	shots := 0
+	guns := 0
+	conf := InstancePoolConfig{ID: "p", Provider: prov, Aggregator: aggr, RPSPerInstance: true,
+		NewGun: func() (core.Gun, error) { gmu.Lock(); guns++; gmu.Unlock(); return &hGun{mu: &gmu, shots: &shots}, nil },
+		NewRPSSchedule: func() (core.Schedule, error) {
+			return schedule.NewComposite(schedule.NewConst(0, d2), schedule.NewOnce(1)), nil
+		},
+		StartupSchedule: schedule.NewComposite(schedule.NewOnce(2), schedule.NewConst(0, d1), schedule.NewOnce(1))}
+	p := newPool(zap.NewNop(), metrics, func() {}, conf)
+	err := p.Run(context.Background())
+	vCheck("A0.pool.ok", err == nil)
+	started := int(metrics.InstanceStart.Get())
+	exp := started // one token per started instance
+	if items < exp {
+		exp = items
+	}
+	vCheck("A1.shots.equal.min.tokens.ammo", shots+aggr.discards == exp)
+	vCheck("A2.release.equals.acquire", prov.released == prov.acquired)
+	vCheck("A3.per.instance.none.unfired", prov.acquired == shots+aggr.discards)
+	vCheck("A4.counters", metrics.Request.Get() == int64(shots) && metrics.InstanceFinish.Get() == int64(started))
 	vReach("end")
 }
